@@ -50,7 +50,7 @@ func flatten(sc *Scn) *Scn {
 	if !nested {
 		return nil
 	}
-	actions := []string{"default", "a", "ab", "b", "Default"}
+	actions := []string{"default", "a", "ab", "b", "Default", "a "}
 	// entry(x): the leaf at which running x begins
 	var entry func(x int) int
 	entry = func(x int) int {
